@@ -297,6 +297,15 @@ func c10IsPayload(v ssa.Value, depth int) bool {
 					continue
 				}
 			}
+		case *ssa.Call:
+			// an accessor of a library value that carries the user's payload (slog.Value.Any() of an attribute)
+			if sc := x.Call.StaticCallee(); sc != nil && !curProgRoot(sc) && sc.Signature.Recv() != nil && len(x.Call.Args) >= 1 {
+				r = x.Call.Args[0]
+				continue
+			}
+		case *ssa.Field:
+			r = x.X
+			continue
 		}
 		break
 	}
@@ -502,7 +511,9 @@ func c10Recover(c *Ctx, rule string) {
 			return
 		}
 		p := fn.Pkg.Pkg.Path()
-		if p != ZapPath && p != CorePath {
+		if p != ZapPath && p != CorePath && p != SlogPath && p != "go.uber.org/zap/exp/zapfield" {
+			// (the front ends that turn user values into fields count too: a String()/Error() they call eagerly runs
+			// outside the encoder's recover)
 			return
 		}
 		for _, cl := range Calls(fn) {
